@@ -272,12 +272,12 @@ let () =
               if not (reason_text_ok v) then ok := false end
           | None -> ()) (split_ws impl_line);
       Printf.printf "%s | %s\n" impl_line (if !ok then "oracle=ok" else "oracle=fail@reason-phrase-not-printable")
-    | mode :: rest when mode = "D" || mode = "S" || mode = "I" || mode = "X" || mode = "B" || mode = "R" ->
+    | mode :: rest when mode = "D" || mode = "S" || mode = "I" || mode = "X" || mode = "B" || mode = "R" || mode = "T" ->
       let (rest, ann) = (let rec cut acc = function
           | "@c09" :: a -> (List.rev acc, Some a) | x :: r -> cut (x :: acc) r | [] -> (List.rev acc, None) in cut [] rest) in
       let (small, cache, script) = (match mode, rest with
           | "D", [s; c; sc] -> (s, c, sc)
-          | ("S" | "I" | "R"), [s; c; _; _; sc] -> (s, c, sc)
+          | ("S" | "I" | "R" | "T"), [s; c; _; _; sc] -> (s, c, sc)
           (* B: the same exchange while another request keeps the one-thread blocking pool busy *)
           | "B", [s; c; _slow; sc] -> (s, c, sc)
           (* X: a disk write fault while the upload (longer than the file-size limit) is saved: the same
